@@ -50,6 +50,14 @@ def oracle(tier, rng, deep=False):
             nontriv += 1
         if a.shape != b.shape or not np.allclose(a, b, rtol=tol, atol=tol, equal_nan=False):
             failures.append(dict(site=site, input=inp, observed=a.tolist(), expected=b.tolist()))
+
+    def cmpf(site, fa, fb, inp):
+        try:
+            a_, b_ = fa(), fb()
+        except Exception as e:
+            failures.append(dict(site=site + ":raises", input=inp, observed=repr(e)[:200]))
+            return
+        cmp(site, a_, b_, inp)
     nrep = 8 if tier == "quick" and not deep else 60
     for _ in range(nrep):
         p = rng.randint(1, 5)
@@ -78,6 +86,31 @@ def oracle(tier, rng, deep=False):
         for j in range(p):
             x, s = rng.choice([v for v in V if v != 0]), rng.choice([0.25, 1.0])
             cmp("prox:singleton-groups=WeightedL1", grp.prox_1group(np.array([x]), s, j), [wl.prox_1d(x, s, j)], dict(inp, x=x, s=s, j=j))
+        # singleton groups listed in ANY order (grp_indices a permutation), sparse-group penalty with zero group weights
+        # = weighted L1 with the feature weights; with group weights too = weighted L1 with the summed weights
+        perm = list(range(p)); rng.shuffle(perm)
+        gi_p = np.array(perm, dtype=np.int32)
+        wf = np.array([rng.choice([0.5, 1.0, 2.0, 3.0]) for _ in range(p)])
+        wg0 = np.zeros(p)
+        wgs = np.array([rng.choice([0.5, 1.0]) for _ in range(p)])
+        sgl0 = cc(sp.WeightedL1GroupL2(a, wg0, wf, gp, gi_p))
+        sgl1 = cc(sp.WeightedL1GroupL2(a, wgs, wf, gp, gi_p))
+        wl_f = cc(sp.WeightedL1(a, wf, False))
+        inp_s = dict(inp, grp_indices=perm, weights_features=wf.tolist(), weights_groups=wgs.tolist())
+        cmp("value:permuted-singleton-groups WeightedL1GroupL2=WeightedL1", sgl0.value(w), wl_f.value(w), inp_s)
+        for g_ in range(p):
+            j = perm[g_]
+            x, s = rng.choice([v for v in V if v != 0]), rng.choice([0.25, 1.0])
+            cmpf("prox:permuted-singleton-groups WeightedL1GroupL2=WeightedL1", lambda: sgl0.prox_1group(np.array([x]), s, g_), lambda: [wl_f.prox_1d(x, s, j)],
+                 dict(inp_s, x=x, s=s, g=g_, j=j))
+            wsum = cc(sp.WeightedL1(a, wf + wgs[np.argsort(gi_p)], False))     # group g holds feature perm[g]: its group weight belongs to that feature
+            cmpf("prox:permuted-singleton-groups WeightedL1GroupL2(+group weights)=WeightedL1(sum)", lambda: sgl1.prox_1group(np.array([x]), s, g_),
+                 lambda: [wsum.prox_1d(x, s, j)], dict(inp_s, x=x, s=s, g=g_, j=j))
+        grp_p = cc(sp.WeightedGroupL2(a, wts, gp, gi_p, False))
+        for g_ in range(p):
+            x, s = rng.choice([v for v in V if v != 0]), rng.choice([0.25, 1.0])
+            wl_g = cc(sp.WeightedL1(a, np.full(p, wts[g_]), False))
+            cmpf("prox:permuted-singleton-groups WeightedGroupL2=WeightedL1", lambda: grp_p.prox_1group(np.array([x]), s, g_), lambda: [wl_g.prox_1d(x, s, 0)], dict(inp_s, x=x, s=s, g=g_))
         # one task: L2_1 = L1 (rows of length 1), QuadraticMultiTask = Quadratic
         l21 = cc(sp.L2_1(a))
         l1n = cc(sp.L1(a, False))
